@@ -17,7 +17,11 @@
 #include <fcppt/extract_from_string.hpp>
 #include <fcppt/from_std_string_locale.hpp>
 #include <fcppt/from_std_wstring_locale.hpp>
+#include <fcppt/from_std_wstring.hpp>
+#include <fcppt/narrow.hpp>
 #include <fcppt/narrow_locale.hpp>
+#include <fcppt/to_std_wstring.hpp>
+#include <fcppt/widen.hpp>
 #include <fcppt/optional_std_string.hpp>
 #include <fcppt/optional_string.hpp>
 #include <fcppt/string.hpp>
@@ -770,9 +774,39 @@ std::string nw_line(std::wstring const &ws)
   return "n=" + show_narrow(n) + " w=" + (n.has_value() ? do_widen(n.get_unsafe()) : std::string{"-"});
 }
 
+// the overloads without a locale argument use fcppt::string_conv_locale() = std::locale("") = LC_ALL=C.utf8 (set in main)
+std::string nwenv_line(std::wstring const &ws)
+{
+  exact<wchar_t> const e{ws};
+  fcppt::optional_std_string const n{fcppt::narrow(e.view())};
+  fcppt::optional_string const n2{fcppt::from_std_wstring(e.view())};
+  if (n.has_value() != n2.has_value() || (n.has_value() && n.get_unsafe() != n2.get_unsafe()))
+    throw std::logic_error{"narrow / from_std_wstring differ"};
+  std::string w{"-"};
+  if (n.has_value())
+  {
+    exact<char> const b{n.get_unsafe()};
+    try
+    {
+      std::wstring const w1{fcppt::widen(b.view())};
+      std::wstring const w2{fcppt::to_std_wstring(b.view())};
+      if (w1 != w2)
+        throw std::logic_error{"widen / to_std_wstring differ"};
+      w = "some " + whex_of(w1);
+    }
+    catch (std::runtime_error const &)
+    {
+      w = "exc";
+    }
+  }
+  return "n=" + show_narrow(n) + " w=" + w;
+}
+
 std::string utf_dispatch(std::vector<std::string> const &t)
 {
   std::string const &op = t[0];
+  if (op == "nwenv" && t.size() == 2)
+    return nwenv_line(parse_whex(t[1]));
   if (op == "facet" && t.size() == 1)
   {
     facet_type const &f{std::use_facet<facet_type>(utf8())};
@@ -820,7 +854,7 @@ std::string dispatch(std::vector<std::string> const &t)
     return enum_by_id(t);
   if (op == "vec" || op == "vin")
     return vec_by_size(t);
-  if (op == "facet" || op == "cvt" || op == "narrow" || op == "widen" || op == "nw" || op == "nws")
+  if (op == "facet" || op == "cvt" || op == "narrow" || op == "widen" || op == "nw" || op == "nws" || op == "nwenv")
     return utf_dispatch(t);
   if (op == "native" && t.size() == 1)
     return std::endian::native == std::endian::little ? "little" : std::endian::native == std::endian::big ? "big" : "mixed";
@@ -864,4 +898,9 @@ std::string handle(std::vector<std::string> const &t)
 }
 }
 
-int main() { return vh::run(handle); }
+int main()
+{
+  // fcppt::string_conv_locale() is std::locale(""): make the environment's locale the UTF-8 one
+  ::setenv("LC_ALL", "C.utf8", 1);
+  return vh::run(handle);
+}
